@@ -1,7 +1,9 @@
 SPECIFICATION LSpec
 CONSTANTS
-  Items = {"a"}
-  MaxOps = 1
+  Names = {"a"}
+  Values = {"v1"}
+  MaxStored = 1
+  MaxQuery = 1
 CONSTRAINT Track
 INVARIANT NotDone
 POSTCONDITION TraceAccepted
